@@ -396,8 +396,11 @@ func recordFlagRecordsRejection(f *ssa.Function, head *ssa.BasicBlock, nIter int
 					continue
 				}
 				nRet++
-				ld, isLd := ret.Results[idx].(*ssa.UnOp)
-				if idx >= len(ret.Results) || !isLd || ld.Op != token.MUL || ld.X != ssa.Value(R) {
+				if idx < 0 || idx >= len(ret.Results) {
+					yieldsR = false
+					continue
+				}
+				if ld, isLd := ret.Results[idx].(*ssa.UnOp); !isLd || ld.Op != token.MUL || ld.X != ssa.Value(R) {
 					yieldsR = false
 				}
 			}
@@ -651,8 +654,11 @@ func scanHelperShape(g *ssa.Function) (sIdx, fromIdx, cIdx int, ok bool) {
 // 0 <= s <= L and, when s < L, s+1 <= e <= L (e = s+1 when s = L); "the key has a closed, non-empty tag" is exactly
 // s < L && e < L && e > s+1. On every path to a return the comparisons the path passed (those between s, e, L and
 // constants; a comparison that cannot be read is left out, which only makes the proof harder) must exclude a tag
-// when the whole key is hashed, and establish it when key[s+1:e] is hashed. Entailment is decided over the finite
-// models L <= 8, which is complete for three variables and offsets of at most 2.
+// when the whole key is hashed, and establish it when key[s+1:e] is hashed. Entailment is decided by searching the
+// models with L <= 40. That is enough: the facts read are difference constraints between s, e, L and 0 whose
+// offsets are at most 2 on either side (a gap of at most 5 per constraint, at most three constraints in a chain:
+// 15) and at most eight disequalities (each can push a value on by one); a satisfiable set of them has a model
+// within that range, so "no model found" means "no model".
 func slotFunctionScanHelperIdiom(r *core.Report, f *ssa.Function, key ssa.Value, cons string, argOf func(*ssa.Return) ssa.Value) (string, bool) {
 	var sCall, eCall *ssa.Call
 	var helper *ssa.Function
@@ -758,7 +764,7 @@ func slotFunctionScanHelperIdiom(r *core.Report, f *ssa.Function, key ssa.Value,
 	}
 	// is there a model of the helper's contract and the facts in which the key has (tag=true) / has no (tag=false) tag?
 	model := func(facts []fact, tag bool) bool {
-		for l := int64(0); l <= 8; l++ {
+		for l := int64(0); l <= 40; l++ {
 			for s := int64(0); s <= l; s++ {
 				eLo, eHi := s+1, l
 				if s == l {
@@ -799,6 +805,7 @@ func slotFunctionScanHelperIdiom(r *core.Report, f *ssa.Function, key ssa.Value,
 		}
 		arg = p.Resolve(arg)
 		var facts []fact
+		nNeq := 0
 		for _, fct := range p.Conds {
 			c, isCmp := core.FactCmp(fct)
 			if !isCmp {
@@ -807,6 +814,11 @@ func slotFunctionScanHelperIdiom(r *core.Report, f *ssa.Function, key ssa.Value,
 			x, okx := termOf(c.X, 0)
 			y, oky := termOf(c.Y, 0)
 			if okx && oky {
+				if c.Op == token.NEQ {
+					if nNeq++; nNeq > 8 {
+						continue // left out (see above): fewer facts only make the proof harder
+					}
+				}
 				facts = append(facts, fact{c.Op, x, y})
 			}
 		}
